@@ -38,6 +38,8 @@ def run(index, tier="quick", seed=0) -> Result:
     _tables_and_domains(res, index)
     _uniform(res, index)
     _doi(res, index)
+    from ..parallel import report as _copy1
+    _copy1(res, index, lambda f: f['module'].startswith('coxeter.families'))
     return res
 
 
